@@ -198,6 +198,99 @@ def _int_values_oracle(base_oracle):
     return f
 
 
+_NUMVAL = re.compile(r"value: (?:Int\((\d+)\)|Float\(([^)]+)\)|Complex \{ real: ([^,]+), imag: ([^ ]+) \})")
+
+
+def _same_float(a, b):
+    import struct
+    return struct.pack(">d", a) == struct.pack(">d", b) or (a != a and b != b)
+
+
+def _numeral_oracle(base_oracle):
+    """default-build oracle for the numeral stream (`x = <numeral>`): acceptance and value as CPython's
+    (int: equal integers; float / imaginary: equal bit patterns, inf included)"""
+    def f(req, out):
+        r = base_oracle(req, out)
+        if r:
+            return r
+        src = unhex(req.split()[2]).decode("utf-8")
+        lit = src[4:].rstrip("\n")
+        try:
+            node = pyast.parse(src).body[0].value
+        except (SyntaxError, ValueError, MemoryError, RecursionError):
+            node = None
+        if node is not None and not (isinstance(node, pyast.Constant) and type(node.value) in (int, float, complex)):
+            # valid syntax that is not one numeral (`j` is a name, `1.j.j` an attribute access): acceptance only
+            return None if out.startswith("(ok ") else "%r rejected %s, CPython accepts it" % (lit[:60], out[:60])
+        want = node.value if node is not None else None
+        if want is None:
+            if out.startswith("(ok "):
+                return "numeral %r accepted, CPython rejects it" % lit[:60]
+            return None
+        if not out.startswith("(ok "):
+            return "numeral %r rejected %s, CPython reads %r" % (lit[:60], out[:60], want if len(lit) < 80 else type(want))
+        m = _NUMVAL.search(_strip_strings(out))
+        if not m:
+            return "no constant in the tree of %r" % lit[:60]
+        if m.group(1) is not None:
+            ok = type(want) is int and int(m.group(1)) == want
+        elif m.group(2) is not None:
+            ok = type(want) is float and _same_float(float(m.group(2)), want)
+        else:
+            ok = (type(want) is complex and _same_float(float(m.group(3)), want.real)
+                  and _same_float(float(m.group(4)), want.imag))
+        if not ok:
+            return "numeral %r has value %s, CPython %r" % (lit[:60], m.group(0)[:80], want if len(lit) < 80 else type(want))
+        return None
+    return f
+
+
+def _numerals(rng, n):
+    """every numeral family x magnitudes around every conversion boundary x underscores x imaginary forms"""
+    fmax = int(1.7976931348623157e308)
+    ints = [0, 1, 9, 10, 255, 2 ** 31 - 1, 2 ** 31, 2 ** 32 - 1, 2 ** 32, 2 ** 53 - 1, 2 ** 53, 2 ** 53 + 1, 2 ** 63 - 1, 2 ** 63,
+            2 ** 63 + 1, 2 ** 64 - 1, 2 ** 64, 2 ** 64 + 1, 2 ** 127 - 1, 2 ** 127, 2 ** 128 - 1, 2 ** 128, 2 ** 128 + 1, 10 ** 19, 10 ** 20,
+            10 ** 38, 10 ** 39, 10 ** 307, 10 ** 308, fmax - 1, fmax, fmax + 1, fmax + 2 ** 969, fmax + 2 ** 970, fmax + 2 ** 970 + 1, 2 ** 1024 - 1,
+            2 ** 1024, 2 ** 1024 + 1, 10 ** 309 - 1, 10 ** 309, 10 ** 310, 10 ** 400 + 7, 3 ** 2000, 10 ** 4999 + 1, 7 ** 6000]
+
+    def us(t, every):
+        """underscores between digits"""
+        return "_".join(t[i:i + every] for i in range(0, len(t), every)) if every else t
+    out = []
+    for v in ints:
+        d = str(v)
+        for t in (d, us(d, 3), us(d, 1) if len(d) < 50 else us(d, 7)):
+            out += [t, t + "j", t + "J", t + ".j", t + ".", t + ".0", t + ".0j", t + "e0", t + "e0j", t + "E+0J", t + "e-0",
+                    "0" + t + "j", "000" + t + "J", "0_0" + t + "j", "00" + t + ".0", "00" + t + "e0", "00" + t + ".j"]
+        out += [hex(v), "0X" + us(hex(v)[2:], 4), oct(v), "0O" + us(oct(v)[2:], 3), bin(v) if v < 2 ** 200 else bin(v % 2 ** 200),
+                "0b_" + us(bin(v % 2 ** 130)[2:], 8), hex(v) + "j", oct(v) + "j", bin(v % 2 ** 70) + "j", "0" + d, "0_" + d]
+    out += ["0" * 400 + "j", "0" * 400, "0" * 400 + ".0", "0_" * 50 + "0j", "0" * 5000 + "1j", "00j", "0j", "0_0j", "007j", "09j", "09.5", "09e1",
+            "0x", "0xj", "1_j", "1__0j", "1_.j", "1._0j", "1j_", "1jj", "1.j.j", "j", "1ej", "1e+j", ".j", ".5j", ".5", "5.", "5.j", ".0e0j", "0.j", "0.0j", "1.5e300j"]
+    floats = ["1e308", "1e309", "1e310", "1.7976931348623157e308", "1.7976931348623158e308", "1.7976931348623159e308", "1.797693134862315807e308",
+              "1.797693134862315808e308", "17976931348623157e292", "0.17976931348623157e309", "2e308", "9e999", "1e400", "1e4000", "1e99999",
+              "1e-307", "2.2250738585072014e-308", "2.2250738585072011e-308", "2.225073858507201e-308", "1e-308", "1e-323", "4.9e-324", "5e-324", "3e-324",
+              "2.5e-324", "2.4703282292062327e-324", "2.4703282292062328e-324", "2.4e-324", "1e-324", "1e-400", "1e-99999", "0e999999", "0.0e-999999",
+              "1" + "0" * 400 + ".0", "1" + "0" * 400 + "e-400", "0." + "0" * 400 + "1", "0." + "0" * 400 + "1e400", "0." + "0" * 322 + "1", "0." + "0" * 323 + "4",
+              "9007199254740993.0", "9007199254740992.5", "0.1", "0.3", "1.0000000000000002", "1.00000000000000011102230246251565404236316680908203125",
+              "1.00000000000000011102230246251565404236316680908203124", "1.00000000000000011102230246251565404236316680908203126",
+              "1_0e3_0_8", "1_000.000_1e1_0", "1e0_0_1", "1.e5", "1.E-5", "12_3.4_5e+6_7", "1e+308", "1E309", "1.e309", "1" + "0" * 309 + ".", "1" + "0" * 309 + ".e0"]
+    for t in floats:
+        out += [t, t + "j", t + "J", "0" + t, "00" + t + "j", us(t.split("e")[0].split(".")[0], 2) + t[len(t.split("e")[0].split(".")[0]):]]
+    sfx = ["", "j", "J", ".j", ".", ".0", ".0j", "e0", "e0j", "e-5j", "e5", ".5e-3J", "e308", "e309j", "e-330", "_0", "_0j"]
+    for _ in range(n):
+        ln = rng.choice([1, 2, 16, 17, 18, 19, 20, 21, 38, 39, 40, 307, 308, 309, 310, 311, 400, 1000, 5000])
+        d = rng.choice("123456789") + "".join(rng.choice("0123456789") for _ in range(ln - 1))
+        if rng.random() < 0.25:
+            d = "1" + "0" * (ln - 1)
+        if rng.random() < 0.3:
+            d = us(d, rng.choice([1, 2, 3, 10]))
+        t = d + rng.choice(sfx)
+        if rng.random() < 0.15:
+            t = rng.choice(["0", "00", "0_"]) + t
+        out.append(t)
+    return list(dict.fromkeys(out))
+
+
 _TYPE_SHAPE = re.compile(r"(?m)^[ \t]*type[ \t]+\w+[ \t]*\[([^\n]*)\][ \t]*(#[^\n]*)?\r?\n")
 
 
@@ -465,4 +558,16 @@ def streams(ctx):
         progs.append(("m", "".join("x%d = %s  # %d\n" % (j, t, j) for j, t in enumerate(chunk)) + "y = [%s]\n" % ", ".join("-" + t for t in chunk)))
     four_builds("integers-in-programs", progs, "random", base_wrap=_int_values_oracle,
                 note="huge integer literals in bases 2/8/10/16; default build judged against CPython's values, the others against it")
+    # 8. every numeral family at every conversion boundary, plain / underscored / imaginary: acceptance, value and error must be
+    #    the same in the four builds (a backend may only be consulted for what the contract fixes), and are CPython's
+    rng = ctx.rng("numerals")
+    nums = _numerals(rng, 400 if quick else 6000)
+    four_builds("numerals", [("m", "x = %s\n" % t) for t in nums] + [("e", t) for t in nums[::7]], "random", base_wrap=None,
+                note="decimal/hex/octal/binary integers, floats with huge and tiny exponents, imaginary forms of each (<digits>j, "
+                     "<digits>.j, <float>j, leading zeros), around 2^63, 2^64, 2^127/128, f64::MAX, 10^308..10^310, 2^1024, 400- and "
+                     "5000-digit integers, with underscores")
+    # judged against CPython as well (module-mode requests only: `x = <numeral>`)
+    for st in out:
+        if st.name == "numerals@default":
+            st.oracle = (lambda inner: (lambda req, o: inner(req, o) if req.split()[1] == "m" else oracle(req, o)))(_numeral_oracle(oracle))
     return out
